@@ -23,6 +23,7 @@ var (
 func checkC16(c *chk.Ctx) {
 	h := newH(c)
 	c.Decided = []string{
+		"R16j the client delivers every non-empty sequence key it receives (no filtering against earlier keys)",
 		"R16i the suffixes of the current last key are only taken from a key that was tested to carry the request's prefix (the reverse lookup returns the greatest lower key of the whole shard, which may belong to another prefix)",
 		"R16a the current highest key of the prefix is looked up in the request's batch (WriteBatch.FindLower) on every path of the key generation; the generation reads no state of the db object",
 		"R16b a first delta of zero is rejected before a key is built",
@@ -43,6 +44,7 @@ func checkC16(c *chk.Ctx) {
 	ruleR16f(h)
 	ruleR16g(h)
 	ruleClientRequestsCarryShard(h, "R16h")
+	ruleSequenceUpdatesDelivered(h, "R16j")
 	ruleR16i(h)
 }
 
